@@ -105,6 +105,15 @@ func processAllClients(op func(id int64, cs *clientState)) {
 	}
 }
 
+// the clients of one emulator instance (the registry is shared by all instances of the process)
+func processClientsOf(dss *dataStoreSet, op func(id int64, cs *clientState)) {
+	processAllClients(func(id int64, cs *clientState) {
+		if cs.dss == dss {
+			op(id, cs)
+		}
+	})
+}
+
 func (cs *clientState) unregister() {
 	clientsMu.Lock()
 	defer clientsMu.Unlock()
